@@ -228,8 +228,7 @@ def grad_leaf(draw, kind, D, kb, allow_ad=True, force_ad=False):
         ad = draw(st.permutations(list(range(D))).map(lambda p: sorted(p[:d])))
     r = {"k": kind, "batch": list(kb), "ad": ad, "d": d, "p": {}}
     if kind == "PolyGrad":
-        # power >= 2: for power 1 the library multiplies 0 by base^(power-2), NaN when the inner product hits 0
-        r["power"] = draw(st.sampled_from([2, 3]))
+        r["power"] = draw(st.sampled_from([1, 2, 3]))
         r["p"]["offset"] = draw(arr(list(kb) + [1], pos(0.1, 3.0)))
     else:
         r["ard"] = draw(st.booleans()) if d >= 2 else False
@@ -301,19 +300,13 @@ def _kernel_of(draw, kind, D, kb, allow_ad=True, force_ad=False, depth=2):
 
 @st.composite
 def setup(draw, kinds=None, max_n=4, square=False, full_shapes=None, allow_ad=True, force_batch=False):
-    """kernel + two input sets, every broadcast pattern between the batch shapes of x1, x2 and the kernel.
-    Derivative kernels read the batch shape off x1 (`x1.shape[:-2]`), so for them x1, x2 carry the full batch shape and the
-    kernel is un-batched or carries the same shape."""
+    """kernel + two input sets, every broadcast pattern between the batch shapes of x1, x2 and the kernel"""
     D = draw(st.integers(1, 3))
     F = draw(st.sampled_from(full_shapes or FULL_SHAPES))
     kind = draw(st.sampled_from(kinds or KINDS))
-    if kind in GRAD:
-        kb = F if force_batch else draw(st.sampled_from([F, []]))
-        b1 = b2 = F
-    else:
-        kb = F if force_batch else draw(sub_shape(F))
-        b1 = draw(sub_shape(F))
-        b2 = b1 if draw(st.booleans()) else draw(sub_shape(F))
+    kb = F if force_batch else draw(sub_shape(F))
+    b1 = draw(sub_shape(F))
+    b2 = b1 if draw(st.booleans()) else draw(sub_shape(F))
     r = draw(kernel_of(kind, D, kb, allow_ad=allow_ad))
     n1 = draw(st.integers(1, max_n))
     n2 = n1 if square else draw(st.integers(1, max_n))
@@ -327,7 +320,7 @@ def setup(draw, kinds=None, max_n=4, square=False, full_shapes=None, allow_ad=Tr
     return {"kernel": r, "D": D, "x1": x1, "x2": x2}
 
 
-def prepare(case, ctx: Ctx, need_x2=True):
+def prepare(case, ctx: Ctx):
     r = case["kernel"]
     x1 = T(case["x1"])
     x2 = T(case["x2"]) if case.get("x2") is not None else None
@@ -1027,11 +1020,7 @@ def ad_case(draw):
     D = draw(st.integers(2, 4))
     F = draw(st.sampled_from([[], [], [], [2], [3], [2, 2]]))
     kind = draw(st.sampled_from(["leaf", "leaf", "tree", "tree", "Multitask", "LCM", "Inducing"] + list(GRAD)))
-    if kind in GRAD:
-        kb = draw(st.sampled_from([F, []]))
-        b1 = b2 = F
-        r = draw(kernel_of(kind, D, kb, force_ad=True))
-    elif kind == "Inducing":
+    if kind == "Inducing":
         kb, b1, b2 = [], F, F
         leaf = draw(ad_leaf(D, [], ["RBF", "Matern1.5", "Matern2.5", "RQ", "Periodic"]))
         base = leaf if draw(st.booleans()) else {"k": "Scale", "batch": [], "base": leaf, "p": {"outputscale": draw(pos(0.1, 5.0))}}
@@ -1046,6 +1035,8 @@ def ad_case(draw):
         b2 = b1 if draw(st.booleans()) else draw(sub_shape(F))
         if kind == "leaf":
             r = draw(ad_leaf(D, kb))
+        elif kind in GRAD:
+            r = draw(kernel_of(kind, D, kb, force_ad=True))
         else:
             r = draw(force_ad(draw(kernel_of(kind, D, kb)), D))
     n1 = draw(st.integers(1, 4))
@@ -1122,10 +1113,7 @@ def getitem_case(draw):
     kb = batch_of(r)
     x1, x2 = T(c["x1"]), T(c["x2"])
     # inputs either carry the kernel's batch shape (then they are indexed alongside) or none at all
-    if any(contains(r, g) for g in GRAD):
-        xmode = "batched"
-    else:
-        xmode = draw(st.sampled_from(["batched", "batched", "unbatched"]))
+    xmode = draw(st.sampled_from(["batched", "batched", "unbatched"]))
     D = c["D"]
     c["x1"] = draw(kern.points(x1.shape[-2], D, kb if xmode == "batched" else []))
     c["x2"] = draw(kern.points(x2.shape[-2], D, kb if xmode == "batched" else []))
@@ -1168,7 +1156,7 @@ def run_getitem(case, ctx: Ctx, cls=None):
             with S.lazily_evaluate_kernels(lazy):
                 g = dense(sub(x1[idx], x2[idx])) if batched_x else dense(sub(x1, x2))
         ctx.close(f"kernel[idx](x[idx])|lazy={lazy}", g, want, **tl)
-    if x1.shape[-2] == x2.shape[-2] and not any(contains(r, g) for g in GRAD):
+    if x1.shape[-2] == x2.shape[-2]:
         with ctx.observing("kernel[idx](diag)"):
             gd = dense(sub(x1[idx], diag=True)) if batched_x else dense(sub(x1, diag=True))
             wd = dense(k(x1))[idx].diagonal(dim1=-2, dim2=-1)
@@ -1213,8 +1201,7 @@ def expand_case(draw):
     lead = draw(st.lists(st.integers(1, 3), min_size=0 if tgt != kb else 1, max_size=1 if kb else 2))
     c["target"] = lead + tgt
     # inputs: un-batched or carrying the target shape
-    grad = any(contains(r, g) for g in GRAD)
-    xb = c["target"] if (grad or draw(st.booleans())) else []
+    xb = c["target"] if draw(st.booleans()) else []
     x1, x2 = T(c["x1"]), T(c["x2"])
     c["x1"] = draw(kern.points(x1.shape[-2], c["D"], xb))
     c["x2"] = draw(kern.points(x2.shape[-2], c["D"], xb))
@@ -1263,8 +1250,6 @@ SPEC = PropertySpec(
         "the oracle is the dense matrix kernel(x1, x2).to_dense() transformed with plain torch; kernel values themselves are C05's subject",
         "negative integer indices on the two matrix dimensions are excluded: linear_operator's LinearOperator.__getitem__ maps them to "
         "slice(-1, 0) for every operator class (dependency outside /repo); they are generated only in the enumeration and counted",
-        "derivative kernels (RBFKernelGrad, Matern52KernelGrad, PolynomialKernelGrad, RBFKernelGradGrad) take the batch shape from x1: x1 and "
-        "x2 carry the full batch shape, the kernel none or the same",
         "kernels with a kink at r = 0 are compared at atol 1e-6 (two routes centre the quadratic-expansion distance differently), others at 1e-11",
         "InducingPointKernel is not a function of point pairs (the diagonal correction depends on torch.equal(x1, x2)); it takes part in the "
         "active_dims relation only",
